@@ -86,6 +86,9 @@ fiber_t* fiber_create_no_sched(size_t stack_size,
     free(ret);
     return NULL;
   }
+#ifdef LIBFIBER_VERIF
+  verif_fiber_created(ret);
+#endif
 
   return ret;
 }
@@ -121,6 +124,9 @@ fiber_t* fiber_create_from_thread() {
     free(ret);
     return NULL;
   }
+#ifdef LIBFIBER_VERIF
+  verif_fiber_created(ret);
+#endif
   return ret;
 }
 
